@@ -378,6 +378,13 @@ func (e *SpecEnv) term(tv TV) Term {
 		return e.optTerm(vv, tv.T)
 	case specTerm:
 		return vv.T
+	case VIface:
+		// an interface holding a scalar (a local that was converted to any at its last use): the scalar
+		if vv.Dyn != nil {
+			if sc, ok := e.x.force(e.st, vv.Val).(VScalar); ok {
+				return sc.T
+			}
+		}
 	}
 	return e.fail("cannot lower %T to a term", v).V.(VScalar).T
 }
@@ -770,6 +777,17 @@ func (e *SpecEnv) binary(n *ast.BinaryExpr) TV {
 			return TV{VScalar{Not(eq)}, boolT}
 		}
 	}
+	// values of different reference kinds (a map and a pointer held in two interfaces) are never equal
+	if n.Op == token.EQL || n.Op == token.NEQ {
+		fa, fb := e.x.force(e.st, a.V), e.x.force(e.st, b.V)
+		_, am := fa.(VMap)
+		_, bm := fb.(VMap)
+		_, ap := fa.(VPtr)
+		_, bp := fb.(VPtr)
+		if (am && bp) || (ap && bm) {
+			return TV{VScalar{BoolLit(n.Op == token.NEQ)}, boolT}
+		}
+	}
 	// interface values (errors): identity of the dynamic value
 	if ia, ok := e.x.force(e.st, a.V).(VIface); ok {
 		if ib, ok := e.x.force(e.st, b.V).(VIface); ok && (n.Op == token.EQL || n.Op == token.NEQ) {
@@ -895,6 +913,20 @@ func (e *SpecEnv) call(n *ast.CallExpr) TV {
 			return TV{VScalar{Term{f, SStr}}, types.Typ[types.String]}
 		}
 		return TV{VScalar{App(SStr, f, parts...)}, types.Typ[types.String]}
+	case "tmplsubst":
+		// tmplsubst(text, k1, v1, k2, v2, ...): what text/template writes for the template text and the
+		// variable map {k1: v1, ...}: the same uninterpreted function the Execute intrinsic produces for
+		// text/template (html/template produces a different one: values are escaped)
+		if len(n.Args) >= 1 && len(n.Args)%2 == 1 {
+			text := e.term(e.eval(n.Args[0]))
+			m := Term{"smap.empty", SMapSS}
+			for i := 1; i+1 < len(n.Args); i += 2 {
+				m = App(SMapSS, "store", m, e.term(e.eval(n.Args[i])), App(SOptS, "some", e.term(e.eval(n.Args[i+1]))))
+			}
+			f := e.x.sym.Func("template.subst", []Sort{SStr, SMapSS}, SStr)
+			return TV{VScalar{App(SStr, f, text, m)}, types.Typ[types.String]}
+		}
+		return e.fail("tmplsubst(text, k, v, ...)")
 	case "isnil":
 		return TV{VScalar{e.isNil(e.eval(n.Args[0]))}, boolT}
 	case "opt":
